@@ -480,19 +480,12 @@ class AnnotationCollection(AbstractFeatureIntervalCollection):
             start = self.chromosome_location.start
         chunk_relative_start = chrom_ancestor.parent_to_relative_pos(start)
 
-        # handle the edge case where the end is the end of the current chunk
-        if end == self.end:
-            chunk_relative_end = (
-                self.lift_over_to_first_ancestor_of_type(SequenceType.CHROMOSOME).parent_to_relative_pos(end - 1) + 1
-            )
-        else:
-            # if this subset operation is about to walk off the edge of the chunk this collection exists on,
-            # don't allow this
-            if self.is_chunk_relative and end > self.chromosome_location.end:
-                end = self.chromosome_location.end - 1
-            chunk_relative_end = self.lift_over_to_first_ancestor_of_type(
-                SequenceType.CHROMOSOME
-            ).parent_to_relative_pos(end)
+        # if this subset operation is about to walk off the edge of the chunk this collection exists on,
+        # don't allow this
+        if self.is_chunk_relative and end > self.chromosome_location.end:
+            end = self.chromosome_location.end
+        # `end` is exclusive: convert the last included position (also covers end == self.end)
+        chunk_relative_end = chrom_ancestor.parent_to_relative_pos(end - 1) + 1
 
         seq_subset = self.chunk_relative_location.extract_sequence()[chunk_relative_start:chunk_relative_end]
 
